@@ -1824,12 +1824,98 @@ Proof.
   apply first_false_all. intros p Hp'. unfold clauses_spec in Hp'. rewrite Eb in Hp'.
   apply in_app_or in Hp'. destruct Hp' as [[<-|[<-|[]]]|Hp']; [exact C1|exact C2|].
   cbn [e In] in Hp'. destruct Hp' as [<-|[]]. cbn [snd].
-  unfold c_recv. rewrite (recv_tail_refused (t1_spec t (Recv sid) a) s0), Bool.andb_true_r.
+  unfold c_recv. apply andb_true_intro. split; [|exact (recv_tail_refused (t1_spec t (Recv sid) a) s0)].
   assert (Hfr : c_frame (observe s op) a = true) by (apply frame_of_same, Hss).
-  cbn [t1_spec t_sess new_spec app]. unfold target in Hexp.
+  cbn [t1_spec t_sess]. change (new_spec t e a ++ t_sess t) with (t_sess t). unfold target in Hexp.
   destruct (assoc sid (t_sess t)) as [i|]; [|rewrite Hfr; reflexivity].
   rewrite slot_with_observe.
   destruct Hexp as [->|(k & -> & Hx)]; cbn [slot_of so_age].
   - rewrite Hfr. reflexivity.
   - unfold age. rewrite Hx, Hfr. reflexivity.
+Qed.
+
+(* ---- receiving: accepted without promotion ------------------------------------------------------------------------ *)
+
+Lemma lidx_inj s k1 k2 : Inv s -> In k1 (keys s) -> In k2 (keys s) -> lidx k1 = lidx k2 -> k1 = k2.
+Proof.
+  intros H. apply (alldiff_map_inj lidx (keys s) k1 k2). apply (alldiff_app_l _ (opt_list (hs s))), (I_idx s H).
+Qed.
+
+Lemma bool_latch (L X : bool) : (if X then true else L) = L || negb L && X.
+Proof. destruct L, X; reflexivity. Qed.
+
+Lemma ok_recv_plain pre t n sid k :
+  Rel (R pre) t n -> n + 2 < sec ->
+  target (R pre) t sid = Some k -> t_reject <=? (now (R pre) - created k) / sec = false ->
+  next (R pre) <> Some k ->
+  ok pre t n (Recv sid).
+Proof.
+  intros HR Hn Htg Hx Hnx. unfold ok. cbv zeta.
+  pose proof (Inv_R pre) as H.
+  destruct (R_before _ _ _ HR) as (op & Eb).
+  set (s := R pre) in *. set (e := Recv sid) in *.
+  destruct (target_some s t n sid k H HR Hn Htg) as (Hin & Hid & Eas).
+  destruct (target_live_age s t n sid k H HR Hn Htg Hx) as (_ & _ & Hage).
+  set (s0 := set_now s (now s + 1)) in *.
+  assert (H0 : Inv s0) by apply (Inv_tick1 s H).
+  destruct (recv_plain s0 k H0 Hin (N.lt_le_incl _ _ Hage) Hnx) as (Hss & Hacc & Htun & Hsent & Hinit & Hlatch).
+  rewrite Hid in Hss, Hacc, Htun, Hsent, Hinit, Hlatch.
+  change (do_recv s0 sid) with (step s e) in Hss, Hacc, Htun, Hsent, Hinit, Hlatch.
+  set (s' := fst (step s e)) in *. set (o := snd (step s e)) in *. set (a := observe s' o).
+  destruct Hss as (Sp & Sc & Sn). unfold recv_due in Hinit, Hlatch.
+  change (prev s0) with (prev s) in *. change (cur s0) with (cur s) in *. change (next s0) with (next s) in *.
+  change (latch s0) with (latch s) in *.
+  assert (Hnow : now s' = now s + 1) by (subst s'; rewrite now_step; cbn [tick_of e]; lia).
+  (* the receive-side re-key condition, in the checker's terms *)
+  set (due := negb (latch s) && match cur s with Some c => initiator c && (rekey_recv_time <? age s0 c) | None => false end) in *.
+  assert (Hdue : due = negb (latch s) &&
+                 match cur s with Some c => initiator c && (t_rekey_recv <=? (now s' - created c) / sec) | None => false end).
+  { subst due. destruct (cur s) as [c|] eqn:Ec; [|reflexivity].
+    assert (Hinc : In c (keys s)) by (unfold keys; rewrite Ec; apply in_or_app; right; apply in_or_app; left; left; reflexivity).
+    pose proof (created_le s c H Hinc). unfold s0. rewrite age_tick, Hnow.
+    replace (now s + 1 - created c) with (now s - created c + 1) by lia.
+    rewrite (recv_time_iff _ n (R_frac _ _ _ HR c Hinc) Hn). reflexivity. }
+  assert (HR' : Rel s' (fst (sstep t (e, a))) (n + 1)).
+  { apply rel_after; try assumption; [reflexivity|reflexivity| | |]; fold s; fold e; fold s'; fold o; fold a.
+    - cbn [new_spec e app]. apply (sess_rel_shrink s s' (t_sess t) H (R_sess _ _ _ HR)).
+      + apply (sessions_step s e).
+      + intros k0 Hk0. unfold keys in *. rewrite Sp, Sc, Sn in Hk0. exact Hk0.
+      + apply (hs_step s e).
+    - intros k0 Hc Hi. unfold conf_spec, e. change (ob_tun a) with (o_tun o). rewrite Htun.
+      apply in_or_app. right. apply (R_conf _ _ _ HR k0); [congruence|exact Hi].
+    - unfold latch_spec. rewrite Eb. cbn [completed_spec e orb ob_next ob_cur ob_tun observe]. fold o. rewrite Sn, Sc, Htun.
+      assert (Ep : is_some (slot_of s (next s)) && negb (is_some (slot_of s' (next s))) = false) by (destruct (next s); reflexivity).
+      rewrite Ep. cbn [orb]. rewrite Hlatch, Hdue. rewrite (R_latch _ _ _ HR).
+      destruct (cur s) as [c|]; cbn [slot_of so_init so_age]; [|rewrite Bool.andb_false_r, Bool.orb_false_r; reflexivity].
+      unfold age. cbn [andb]. apply bool_latch. }
+  split; [|exact HR'].
+  destruct (clause12 pre t n e HR') as [C1 C2]. fold s in C1, C2. fold s' in C1, C2. fold o in C1, C2. fold a in C1, C2.
+  apply first_false_all. intros p Hp'. unfold clauses_spec in Hp'. rewrite Eb in Hp'.
+  apply in_app_or in Hp'. destruct Hp' as [[<-|[<-|[]]]|Hp']; [exact C1|exact C2|].
+  cbn [e In] in Hp'. destruct Hp' as [<-|[]]. cbn [snd].
+  assert (Hfr : c_frame (observe s op) a = true) by (apply frame_of_same; repeat split; assumption).
+  unfold c_recv. cbn [t1_spec t_sess t_latch]. change (new_spec t e a ++ t_sess t) with (t_sess t). rewrite Eas.
+  rewrite slot_with_observe.
+  assert (Eka : key_at s (lidx k) = Some k).
+  { unfold target in Htg. rewrite Eas in Htg. exact Htg. }
+  rewrite Eka. cbn [slot_of so_age]. unfold age at 1. rewrite Hx.
+  cbn [ob_tun ob_next ob_cur ob_init observe]. fold o. rewrite Htun. cbn [andb].
+  assert (Em : memN (lidx k) (slot_idx (slot_of s (next s))) = false).
+  { destruct (next s) as [nx|] eqn:En; [|reflexivity]. cbn [slot_of slot_idx so_lidx memN existsb].
+    destruct (N.eqb_spec (lidx k) (lidx nx)) as [E|]; [|reflexivity]. exfalso. apply Hnx. f_equal.
+    assert (Hinn : In nx (keys s)) by (unfold keys; rewrite En; apply in_or_app; right; apply in_or_app; right; left; reflexivity).
+    apply (lidx_inj s nx k H Hinn Hin). congruence. }
+  rewrite Em, Hfr. cbn [andb].
+  rewrite Sc. rewrite Hinit, Hdue.
+  assert (Hsp : spaced (t1_spec t e a) = true -> rate_limited s0 = false).
+  { intros Hs. apply (spaced_not_limited s (t_since t) H (R_since _ _ _ HR)). exact Hs. }
+  rewrite (R_latch _ _ _ HR).
+  destruct (cur s) as [c|]; cbn [slot_of so_init so_age].
+  - unfold age. assert (Eio : forall b : bool, is_some (if b then Some (hd 0 (inits s')) else None) = b) by (intros []; reflexivity).
+    rewrite Eio. cbn [andb].
+    destruct (initiator c && (t_rekey_recv <=? (now s' - created c) / sec)); cbn [andb].
+    + destruct (latch s); cbn [negb andb]; [reflexivity|].
+      destruct (spaced (t1_spec t e a)); [rewrite Hsp by reflexivity; reflexivity|]. destruct (negb (rate_limited s0)); reflexivity.
+    + rewrite Bool.andb_false_r. reflexivity.
+  - rewrite Bool.andb_false_r. reflexivity.
 Qed.
